@@ -65,7 +65,12 @@ def read0(path):
 def run_value(arg):
     i, x, rest, ov = arg
     with C.scratch("c07") as d:
-        open(os.path.join(d, "justfile"), "w").write(JUSTFILE)
+        # every other case: a loaded .env file that defines the names of the parameters and of the overridden
+        # variable - the value given on the command line is what the command must see
+        dotenv = i % 2 == 1
+        open(os.path.join(d, "justfile"), "w").write(("set dotenv-load\n" if dotenv else "") + JUSTFILE)
+        if dotenv:
+            open(os.path.join(d, ".env"), "w").write("x=dotenv-x\nrest=dotenv-rest\nv=dotenv-v\n")
         env = dict(C.BASE_ENV)
         env.update({"HOME": d, "TMPDIR": d})
         res = {}
@@ -90,6 +95,126 @@ def run_value(arg):
         res["raw_argv"] = entries[0]["argv"][3:] if entries else None
         res["canary"] = os.path.exists(os.path.join(d, "canary"))
         return res
+
+
+# ---- random signatures: argv and environment of the child against Just.Channels
+
+def gen_channel_case(rng, vals):
+    """A recipe with a random parameter list, random words, in a module with random neighbours of the channels:
+    `set export`, `set positional-arguments`, a .env file and outer variables with the parameters' names."""
+    kinds = []
+    n = rng.randint(1, 4)
+    for k in range(n):
+        last = k == n - 1
+        kind = rng.choice(["singular", "singular", "default"] + (["plus", "star", "stardefault"] if last else []))
+        kinds.append(kind)
+    # required parameters may not follow defaulted ones
+    seen_default = False
+    for k, kind in enumerate(kinds):
+        if kind == "default":
+            seen_default = True
+        elif seen_default and kind in ("singular", "plus"):
+            kinds[k] = "default" if kind == "singular" else "stardefault"
+    names = rng.sample(["x", "y", "z", "w", "HEX"], n)
+    params = []
+    for nm, kind in zip(names, kinds):
+        params.append({"name": nm, "exported": rng.random() < 0.5,
+                       "kind": {"singular": "singular", "default": "singular", "plus": "plus", "star": "star", "stardefault": "star"}[kind],
+                       "default": "d-" + nm if kind in ("default", "stardefault") else None})
+    required = sum(1 for p in params if p["default"] is None and p["kind"] != "star")
+    variadic = params[-1]["kind"] != "singular"
+    hi = n + 3 if variadic else n
+    nwords = rng.randint(required, hi)
+    pool = vals[:700]
+    words = [rng.choice(pool) for _ in range(nwords)]
+    # the first word must not look like an option (clap's business)
+    return {"params": params, "words": words, "positional": rng.random() < 0.7, "set_export": rng.random() < 0.4,
+            "script": rng.random() < 0.3, "dotenv": rng.random() < 0.5, "outer": rng.random() < 0.5,
+            "unexport": rng.random() < 0.3}
+
+
+def channel_files(c):
+    t = 'set shell := ["%s", "-c"]\n' % C.VSH
+    if c["positional"]:
+        t += "set positional-arguments\n"
+    if c["set_export"]:
+        t += "set export\n"
+    if c["dotenv"]:
+        t += "set dotenv-load\n"
+    if c["unexport"]:
+        t += "unexport %s\n" % c["params"][0]["name"]
+    if c["outer"]:
+        # a variable of the module with the name of the last parameter (the parameter shadows it); never the unexported name
+        nm = c["params"][-1]["name"]
+        if not (c["unexport"] and nm == c["params"][0]["name"]):
+            t += "export %s := 'outer-%s'\n" % (nm, nm)
+        else:
+            c = dict(c, outer=False)
+    head = "r"
+    for p in c["params"]:
+        head += " " + {"singular": "", "plus": "+", "star": "*"}[p["kind"]] + ("$" if p["exported"] else "") + p["name"]
+        if p["default"] is not None:
+            head += "='%s'" % p["default"]
+    body = "  #!%s\n  [T]\n" % C.VSH if c["script"] else "  [T]\n"
+    files = {"justfile": t + "\n" + head + ":\n" + body}
+    if c["dotenv"]:
+        files[".env"] = "".join("%s=dotenv-%s\n" % (p["name"], p["name"]) for p in c["params"]) + "OTHER=dotenv-other\n"
+    return files, c
+
+
+def run_channel_case(c):
+    files, c = channel_files(c)
+    with C.scratch("c07c") as d:
+        for f, t in files.items():
+            open(os.path.join(d, f), "w").write(t)
+        logp = os.path.join(d, "vsh.log")
+        env = dict(C.BASE_ENV)
+        env.update({"HOME": d, "TMPDIR": d, "VSH_LOG": logp})
+        # `--` keeps words that look like options away from clap
+        p = subprocess.run([C.JUST, "r"] + (["--"] if any(w.startswith("-") for w in c["words"]) else []) + c["words"], cwd=d, env=env,
+                           stdin=subprocess.DEVNULL, stdout=subprocess.PIPE, stderr=subprocess.PIPE)
+        entries = C.read_vsh_log(logp)
+        e = entries[0] if entries else None
+        names = [p_["name"] for p_ in c["params"]] + ["OTHER"]
+        return {"rc": p.returncode, "stderr": p.stderr.decode("utf-8", "replace")[-300:], "files": files,
+                "argv": e["argv"] if e else None, "env": {k: e["env"].get(k) for k in names} if e else None, "outer": c["outer"]}
+
+
+def channel_request(c, r):
+    outer = []
+    if r["outer"]:
+        nm = c["params"][-1]["name"]
+        outer = [[{"name": nm, "value": "outer-" + nm, "exported": True, "constant": False}]]
+    return {"op": "channels",
+            "params": [{"name": p["name"], "exported": p["exported"],
+                        "p": {"kind": p["kind"], "default": None if p["default"] is None else [{"lit": {"s": p["default"]}}]}} for p in c["params"]],
+            "words": c["words"], "positional": c["positional"],
+            "shell": [C.VSH] if c["script"] else [C.VSH, "-c"], "command": "<script>" if c["script"] else "[T]", "name": "r",
+            "script": c["script"], "base": [],
+            "dotenv": ([[p["name"], "dotenv-" + p["name"]] for p in c["params"]] + [["OTHER", "dotenv-other"]]) if c["dotenv"] else [],
+            "setExport": c["set_export"], "unexports": [c["params"][0]["name"]] if c["unexport"] else [], "outer": outer,
+            "names": [p["name"] for p in c["params"]] + ["OTHER"]}
+
+
+def channel_oracle(c, r):
+    """The statement, directly: every word is one argv element after the recipe name; an exported parameter's variable
+    holds its word (a variadic one its words joined by single spaces)."""
+    bad = []
+    if c["positional"]:
+        tail = r["argv"][2:] if c["script"] else r["argv"][3:]
+        want = ([] if c["script"] else ["r"]) + c["words"]
+        if tail[:len(want)] != want:
+            bad.append(("positional", tail, want))
+    k = 0
+    for i, p in enumerate(c["params"]):
+        if not (p["exported"] or c["set_export"]):
+            continue
+        if p["kind"] == "singular":
+            if i < len(c["words"]) and r["env"][p["name"]] != c["words"][i]:
+                bad.append(("export", p["name"], r["env"][p["name"]], c["words"][i]))
+        elif i < len(c["words"]) and r["env"][p["name"]] != " ".join(c["words"][i:]):
+            bad.append(("export-variadic", p["name"], r["env"][p["name"]], " ".join(c["words"][i:])))
+    return bad
 
 
 def run(report):
@@ -140,6 +265,32 @@ def run(report):
                                 raw_argv=r["raw_argv"]), no_input=True)
         if len(samples) < 4 and len(x) > 4 and "'" in x:
             samples.append({"x": x, "quoted": m["q"], "delivered": r["q"]})
+    # random signatures: the child's argv and environment against the statement and against Just.Channels
+    nchan = 1500 if tier == "quick" else 25000
+    ccases = [gen_channel_case(C.case_rng(report.seed, i, "c07-channels"), vals) for i in range(nchan)]
+    cres = C.pmap(run_channel_case, ccases)
+    cmod = drv.pbatch([channel_request(c, r) for c, r in zip(ccases, cres)], chunk=2000)
+    stats["channel_cases"] = nchan
+    stats["channel_shapes"] = {}
+    for c, r, m in zip(ccases, cres, cmod):
+        if "fatal" in m:
+            raise C.BuildError("model driver: " + m["fatal"])
+        shape = " ".join({"singular": "s", "plus": "+", "star": "*"}[p["kind"]] + ("=" if p["default"] is not None else "") for p in c["params"])
+        stats["channel_shapes"][shape] = stats["channel_shapes"].get(shape, 0) + 1
+        replay = {"files": r["files"], "argv": ["r"] + c["words"], "case": c, "observed": {"rc": r["rc"], "argv": r["argv"], "env": r["env"], "stderr": r["stderr"]}}
+        if r["rc"] != 0 or r["argv"] is None:
+            report.failure("c07-channel-run", "a valid invocation did not run: " + r["stderr"][-150:], replay)
+            continue
+        bad = channel_oracle(c, r)
+        if bad:
+            report.failure("c07-channel:%s" % bad[0][0], "a word did not arrive unchanged: %r" % (bad[0],), dict(replay, expected=bad))
+            continue
+        margv = m.get("argv")
+        if c["script"] and margv:
+            margv = [margv[0], r["argv"][1]] + margv[2:]      # the script's path is a temporary file
+        if "error" in m or margv != r["argv"] or m["env"] != r["env"]:
+            report.failure("c07-model-channels", "argv / environment of the child differ from Just.Channels (the statement oracle holds)",
+                           dict(replay, correspondence="C07 argv and env vs Just.Channels.evalParams/linewiseArgv/scriptArgv/recipeEnv", model=m), no_input=True)
     # validate the POSIX word model against dash on inputs inside the subset
     subset = ["a", "b", "'", "\\", " ", "\t", "-", "é"]
     texts = []
@@ -170,9 +321,9 @@ def run(report):
             report.failure("c07-model-shell", "the POSIX word model disagrees with /bin/sh",
                            {"correspondence": "Just.Quote.shSplit vs dash", "input": t, "model": m["words"], "sh": dres}, no_input=True)
     report.coverage.update({
-        "evaluations": len(vals) + stats["dash_model_compared"],
+        "evaluations": len(vals) + stats["dash_model_compared"] + nchan,
         "distinct_nontrivial": len(distinct),
-        "rule": "all strings of length <=%d over a 26-symbol metacharacter alphabet (exhaustive) + injection payloads + random longer strings, each delivered through quote(), exported $param, \"$1\"/\"$@\"/$0 under positional-arguments (linewise and shebang), variadic words, and a NAME=VALUE override (quote and export); real /bin/sh; distinct = distinct values" % (2 if tier == "quick" else 3),
+        "rule": "all strings of length <=%d over a 26-symbol metacharacter alphabet (exhaustive) + injection payloads + random longer strings, each delivered through quote(), exported $param, \"$1\"/\"$@\"/$0 under positional-arguments (linewise and shebang), variadic words, and a NAME=VALUE override (quote and export); real /bin/sh; plus random parameter lists (singular, default, +, *, exported or not) x random words x {positional-arguments, set export, shebang, a .env file and a module variable defining the same names, unexport}: argv and environment of the child vs the statement and vs Just.Channels; distinct = distinct values" % (2 if tier == "quick" else 3),
         "samples": samples,
         "exhaustive": True,
         "traces_validated_against_impl": len(vals),
